@@ -107,7 +107,9 @@ func (k msgServer) ProcessUndPurchaseOrder(goCtx context.Context, msg *types.Msg
 
 	currentDecisions := purchaseOrder.Decisions
 	for _, d := range currentDecisions {
-		if msg.Signer == d.Signer {
+		// compare addresses, not their spelling: bech32 also accepts the all-upper-case form
+		decidedBy, _ := sdk.AccAddressFromBech32(d.Signer)
+		if msg.Signer == d.Signer || signer.Equals(decidedBy) {
 			return nil, sdkerrors.Wrapf(types.ErrSignerAlreadyMadeDecision, "signer %s already decided: %s", msg.Signer, d.Decision.String())
 		}
 	}
